@@ -63,3 +63,14 @@ func Task(ts *server.Teamserver, demonID string, commandID uint32, taskID uint32
 func TaskSimple(ts *server.Teamserver, demonID string, taskID uint32) {
 	Task(ts, demonID, 100, taskID, nil)
 }
+
+// TaskRaw sends a Session/Input package with exactly this Info map through DispatchEvent.
+func TaskRaw(ts *server.Teamserver, info map[string]any) {
+	cp := map[string]any{}
+	for k, v := range info {
+		cp[k] = v
+	}
+	ts.DispatchEvent(packager.Package{
+		Head: packager.Head{Event: packager.Type.Session.Type, User: "alice", OneTime: "true"},
+		Body: packager.Body{SubEvent: packager.Type.Session.Input, Info: cp}})
+}
